@@ -661,10 +661,10 @@ def evaluate__idiv_operator(self: XPathToken, context: ta.ContextType = None) ->
             return int(result)
         else:
             return int(result) + 1  # floor division of an inexact negative quotient
-    except (ZeroDivisionError, DivisionByZero, InvalidOperation):
+    except (ZeroDivisionError, DivisionByZero, InvalidOperation, OverflowError):
         if isinstance(context, XPathSchemaContext):
             return 1
-        raise self.error('FOAR0001') from None
+        raise self.error('FOAR0001' if op2 == 0 else 'FOAR0002') from None
 
 
 # Resolve the intrinsic ambiguity of some infix operators
